@@ -323,7 +323,9 @@ func (v *Verifier) runPartition(pkg *ssa.Package, fn *ssa.Function, c *Contract,
 		v.abstractProducts = false
 	}
 	var mine []*Obligation
+	rctx := &ReplayCtx{V: v, Pkg: pkg, Fn: fn, C: c, Part: p, Tags: v.tags, Repo: v.repo}
 	v.sink = func(o *Obligation) {
+		o.Ctx = rctx
 		mine = append(mine, o)
 		script := F.Script(&Query{Name: o.Name, Hyps: o.Hyps, Goal: o.Goal, Abstract: o.Abstract, Preamble: o.Preamble}, true)
 		o.Hyps, o.Goal = nil, nil
